@@ -16,6 +16,7 @@ lines pull items out of the repository source as text and annotate them:
       //@loop N top :: TEXT          inserted at start of loop body
       //@loop N end :: TEXT          inserted at end of loop body (before the X4 increment)
       //@loop N stepby TYPE          X4 rewrite of `for i in (a..b).step_by(k)[.rev()]`
+      //@loop N itermut IDX          X5 rewrite of `for x in &mut place {` into an index loop (`let x = &mut place[IDX]`)
       //@before loop=N guard=IDENT [nth=K] :: TEXT   before the K-th top-level statement of loop N's body
       //@after  loop=N guard=IDENT [nth=K] :: TEXT   (N=0: the function body) that mentions IDENT
       //@+ TEXT                      continuation of the previous TEXT
@@ -119,6 +120,8 @@ class FnSplice:
                     L.setdefault("endtxt", []).append(txt)
                 elif sub == "stepby":
                     L["stepby"] = args[2]
+                elif sub == "itermut":
+                    L["itermut"] = args[2]
                 else:
                     raise ScanError("bad loop directive %s" % sub)
             elif kind in ("before", "after"):
@@ -147,7 +150,25 @@ class FnSplice:
             hdr = "\n".join(L.get("hdr", []))
             endtxt = "\n".join(L.get("endtxt", []))
             header_src = text[L["kw"]:L["open"]]
-            if "stepby" in L:
+            if "itermut" in L:
+                # X5: `for PAT in &mut EXPR {` => `{ let mut IDX: usize = 0; while IDX < EXPR.len() HDR { let PAT = &mut EXPR[IDX]; body; IDX += 1; } }`
+                mm = re.match(r"for\s+([A-Za-z_][A-Za-z0-9_]*)\s+in\s+&mut\s+([A-Za-z_][A-Za-z0-9_\.]*)\s*$", " ".join(m[L["kw"]:L["open"]].split()))
+                if not mm:
+                    raise ScanError("X5 not applicable: loop %d of %s is `%s`" % (idx + 1, p["name"], header_src.strip()))
+                var, expr = mm.group(1), mm.group(2)
+                body = m[L["open"] + 1:L["close"]]
+                if re.search(r"\b(continue|break|return)\b", body) or "?" in body:
+                    raise ScanError("X5 not applicable: control transfer in body of loop %d of %s" % (idx + 1, p["name"]))
+                if re.search(re.escape(expr) + r"\b", body) or re.search(r"\blet\s+(mut\s+)?%s\b" % var, body):
+                    raise ScanError("X5 not applicable: `%s` mentioned or `%s` rebound in body of loop %d of %s" % (expr, var, idx + 1, p["name"]))
+                ix = L["itermut"]
+                head = "; { let mut %s: usize = 0; while %s < %s.len()\n%s\n" % (ix, ix, expr, hdr)
+                repl.append((L["kw"], L["open"], head))
+                ins.append((L["open"] + 1, 10**8, "\nlet %s = &mut %s[%s];\n" % (var, expr, ix)))
+                add_ins(L["close"], "%s\n%s += 1; " % (endtxt, ix))
+                add_ins(L["close"] + 1, " }")
+                x4.append({"fn": p["name"], "iter": "&mut " + expr, "var": var, "x5": True, "while": "", "side": "true"})
+            elif "stepby" in L:
                 mm = re.match(r"for\s+([A-Za-z_][A-Za-z0-9_]*)\s+in\s+\((.+?)\.\.(.+?)\)\s*\.step_by\((.+?)\)\s*(\.rev\(\))?\s*$", " ".join(m[L["kw"]:L["open"]].split()))
                 if not mm:
                     raise ScanError("X4 not applicable: loop %d of %s is `%s`" % (idx + 1, p["name"], header_src.strip()))
